@@ -136,9 +136,16 @@ def _dispatch(path: Path) -> list[tuple[str, str]]:
             continue        # default: log a warning
         if not (isinstance(pat, ast.MatchClass) and isinstance(pat.cls, ast.Attribute) and not pat.patterns and not pat.kwd_patterns and case.guard is None):
             raise Unsupported(f'monitor.py:{pat.lineno}: case pattern')
-        if len(case.body) != 1:
+        body = list(case.body)
+        # the open-prompt bookkeeping of the command filter (C07; pinned there): exactly these two statements,
+        # each before the dispatch of its own event, and nothing else
+        BOOK = {'OnStartPrompt': 'context.open_prompts.add((event.trace_no, event.prompt_no))',
+                'OnEndPrompt': 'context.open_prompts.discard((event.trace_no, event.prompt_no))'}
+        if len(body) == 2 and BOOK.get(pat.cls.attr) == ast.unparse(body[0]):
+            body = body[1:]
+        if len(body) != 1:
             raise Unsupported(f'monitor.py:{pat.lineno}: case body')
-        st = case.body[0]
+        st = body[0]
         ok = (isinstance(st, ast.Expr) and isinstance(st.value, ast.Await) and isinstance(st.value.value, ast.Call)
               and isinstance(st.value.value.func, ast.Attribute) and isinstance(st.value.value.func.value, ast.Name)
               and st.value.value.func.value.id == 'ahook'
